@@ -6,6 +6,7 @@
 From Coq Require Import List Arith Bool Lia.
 From VBase Require Import FieldOps.
 From VModel Require Import Fri.
+From VProofs Require Import FriIdx.
 Import ListNotations.
 
 Fixpoint vectors (n q : nat) : list (list nat) :=
@@ -53,6 +54,76 @@ Lemma filter_partition_length {A} (g : A -> bool) l :
   length (filter g l) + length (filter (fun x => negb (g x)) l) = length l.
 Proof. induction l as [|a l IH]; cbn; [reflexivity | destruct (g a); cbn; lia]. Qed.
 
+(* ---------------------------------------------------------------- from LDE positions to last-layer positions *)
+(* the positions the verifier reaches after k layers: P_0 = ps, P_{i+1} = fold_positions P_i *)
+Fixpoint fold_chain (k : nat) (ps : list nat) (d N : nat) : list nat :=
+  match k with 0 => ps | S k' => fold_chain k' (fold_positions_core ps (d / N)) (d / N) N end.
+
+Lemma fold_core_In ps t x : In x (fold_positions_core ps t) <-> exists p, In p ps /\ x = p mod t.
+Proof.
+  rewrite fold_positions_core_dedup, dedup_In, in_map_iff. split; intros [p [A B]]; exists p; auto.
+Qed.
+
+Lemma mod_mod_mul p n c : n <> 0 -> c <> 0 -> (p mod (n * c)) mod n = p mod n.
+Proof. intros Hn Hc. rewrite Nat.mod_mul_r by assumption. rewrite Nat.mul_comm, Nat.mod_add by assumption. now apply Nat.mod_mod. Qed.
+
+Lemma fold_chain_In : forall k ps n N x, N <> 0 -> n <> 0 -> (forall p, In p ps -> p < n * N ^ k) ->
+  (In x (fold_chain k ps (n * N ^ k) N) <-> exists p, In p ps /\ x = p mod n).
+Proof.
+  induction k as [|k IH]; intros ps n N x HN Hn Hps; cbn [fold_chain Nat.pow].
+  - rewrite Nat.mul_1_r in Hps. split.
+    + intros H. exists x. split; [assumption|]. symmetry. apply Nat.mod_small. now apply Hps.
+    + intros [p [A ->]]. rewrite Nat.mod_small by now apply Hps. assumption.
+  - assert (Hd : n * (N * N ^ k) / N = n * N ^ k).
+    { replace (n * (N * N ^ k)) with (n * N ^ k * N) by lia. now apply Nat.div_mul. }
+    rewrite Hd. assert (Hz : n * N ^ k <> 0) by (apply Nat.neq_mul_0; split; [assumption | now apply Nat.pow_nonzero]).
+    rewrite IH; [|assumption|assumption|].
+    + split.
+      * intros [y [Hy ->]]. apply fold_core_In in Hy. destruct Hy as [p [Hp ->]]. exists p. split; [assumption|].
+        apply mod_mod_mul; [assumption | now apply Nat.pow_nonzero].
+      * intros [p [Hp ->]]. exists (p mod (n * N ^ k)). split; [apply fold_core_In; eauto|].
+        symmetry. apply mod_mod_mul; [assumption | now apply Nat.pow_nonzero].
+    + intros y Hy. apply fold_core_In in Hy. destruct Hy as [p [_ ->]]. now apply Nat.mod_upper_bound.
+Qed.
+
+Lemma forallb_fold_chain (good : nat -> bool) k ps n N : N <> 0 -> n <> 0 -> (forall p, In p ps -> p < n * N ^ k) ->
+  forallb good (fold_chain k ps (n * N ^ k) N) = forallb (fun p => good (p mod n)) ps.
+Proof.
+  intros HN Hn Hps. apply eq_true_iff_eq. rewrite !forallb_forall. split.
+  - intros H p Hp. apply H. apply fold_chain_In; eauto.
+  - intros H x Hx. apply fold_chain_In in Hx; try assumption. destruct Hx as [p [Hp ->]]. now apply H.
+Qed.
+
+Lemma vectors_entries n q v : In v (vectors n q) -> forall p, In p v -> p < n.
+Proof.
+  revert v. induction q as [|q IH]; intros v Hv p Hp; cbn [vectors] in Hv.
+  - destruct Hv as [<-|[]]. destruct Hp.
+  - apply in_flat_map in Hv. destruct Hv as [a [Ha Hv]]. apply in_map_iff in Hv. destruct Hv as [v' [<- Hv']].
+    destruct Hp as [<-|Hp]; [apply in_seq in Ha; lia | eapply IH; eassumption].
+Qed.
+
+Lemma filter_map_length {A B} (g : B -> bool) (f : A -> B) l : length (filter g (map f l)) = length (filter (fun x => g (f x)) l).
+Proof. induction l as [|a l IH]; cbn; [reflexivity | destruct (g (f a)); cbn; now rewrite IH]. Qed.
+
+Lemma seq_shift_map n : forall a, seq a n = map (fun i => a + i) (seq 0 n).
+Proof.
+  induction n as [|n IH]; intros a; cbn [seq map]; [reflexivity|].
+  rewrite Nat.add_0_r. f_equal. rewrite (IH (S a)), <- seq_shift, map_map. apply map_ext. intros i. lia.
+Qed.
+
+(* every last-layer position has exactly m preimages in the LDE domain of size n * m *)
+Lemma preimage_count (good : nat -> bool) n : forall m, n <> 0 ->
+  length (filter (fun p => good (p mod n)) (seq 0 (n * m))) = m * length (filter good (seq 0 n)).
+Proof.
+  induction m as [|m IH]; intros Hn; [now rewrite Nat.mul_0_r|].
+  replace (n * S m) with (n * m + n) by lia. rewrite seq_app, filter_app, app_length, IH by assumption. cbn [Nat.add].
+  rewrite (seq_shift_map n (n * m)).
+  rewrite filter_map_length. rewrite (filter_ext_in (fun x => good ((n * m + x) mod n)) good).
+  - cbn. lia.
+  - intros i Hi. apply in_seq in Hi. f_equal. rewrite Nat.add_comm, Nat.mul_comm, Nat.mod_add by assumption.
+    apply Nat.mod_small. lia.
+Qed.
+
 Section Check.
 Context {F : Type} (O : FOps F).
 Variable gen_offset : F.
@@ -78,5 +149,27 @@ Proof.
   rewrite passing_vectors_count. f_equal.
   pose proof (filter_partition_length (good_position R g E) (seq 0 n)) as H. rewrite seq_length in H.
   unfold bad. lia.
+Qed.
+(* fri_query_counting_lde_partial: q query positions in the LDE domain of size D = n * N^k (k layers of folding factor
+   N, last layer of size n), a last-layer function E fixed before the queries, a remainder R disagreeing with E on
+   `bad` of the n last-layer positions.  The verifier folds the positions k times (fold_positions: mod + dedup) and
+   runs check (e) on the result; this passes iff every query position reduces (mod n) to a good position, and
+   exactly (D - bad * N^k)^q of the D^q position vectors pass — a fraction ((n - bad)/n)^q. *)
+Theorem fri_query_counting_lde_partial : forall R g E n N k q, N <> 0 -> n <> 0 ->
+  let D := n * N ^ k in
+  let bad := length (filter (fun p => negb (good_position R g E p)) (seq 0 n)) in
+  length (filter (fun ps => let last := fold_chain k ps D N in
+                            remainder_check O gen_offset R g last (map (fun p => nth p E (fzero O)) last))
+                 (vectors D q))
+  = (D - bad * N ^ k) ^ q /\ length (vectors D q) = D ^ q.
+Proof.
+  intros R g E n N k q HN Hn D bad. split; [|apply vectors_length].
+  rewrite (filter_ext_in _ (forallb (fun p => good_position R g E (p mod n)))).
+  2:{ intros ps Hps. cbv zeta. rewrite remainder_check_forallb.
+      apply forallb_fold_chain; try assumption. intros p Hp. eapply vectors_entries; eassumption. }
+  rewrite passing_vectors_count. f_equal. unfold D.
+  rewrite preimage_count by assumption.
+  pose proof (filter_partition_length (good_position R g E) (seq 0 n)) as H. rewrite seq_length in H.
+  fold bad in H. nia.
 Qed.
 End Check.
